@@ -428,6 +428,8 @@ impl Compressor for HuffmanCompressor {
 /// rANS-based compressor
 pub struct RansCompressor {
     encoder: Rans64Encoder<ParallelX1>,
+    /// the raw (un-normalised) training frequencies: what `decompress` must rebuild the model from
+    frequencies: [u32; 256],
 }
 
 impl RansCompressor {
@@ -461,7 +463,7 @@ impl RansCompressor {
         }
 
         let encoder = Rans64Encoder::<ParallelX1>::new(&frequencies)?;
-        Ok(Self { encoder })
+        Ok(Self { encoder, frequencies })
     }
 }
 
@@ -473,9 +475,9 @@ impl Compressor for RansCompressor {
 
         let mut result = Vec::new();
 
-        // Store frequencies table (4 bytes per frequency)
-        for i in 0..=255u8 {
-            let freq = self.encoder.get_symbol(i).freq;
+        // Store the raw frequencies table (4 bytes per frequency): decompress() normalises it exactly
+        // once, like new() did, so both sides use the same model
+        for freq in self.frequencies.iter() {
             result.extend_from_slice(&freq.to_le_bytes());
         }
 
